@@ -149,6 +149,52 @@ def fuse_loop(st, gen, prefix, self_expr=None):
     return out
 
 
+def zip_range_parts(call):
+    """(count expression, generator call) when `call` is zip(range(N), G(...)), else None."""
+    if isinstance(call, ast.Call) and isinstance(call.func, ast.Name) and call.func.id == "zip" and len(call.args) == 2 and not call.keywords:
+        r, g = call.args
+        if isinstance(r, ast.Call) and isinstance(r.func, ast.Name) and r.func.id == "range" and len(r.args) == 1 and not r.keywords and isinstance(g, ast.Call):
+            return r.args[0], g
+    return None
+
+
+def fuse_zip_range_loop(st, gen, prefix, self_expr=None):
+    """for (I, T) in zip(range(N), gen(args)): BODY -- at most N elements are taken from the generator, and zip asks the range
+    first: a round that finds the range exhausted does not resume the generator. Fused as
+
+        cnt = 0; lim = N; <gen's PRE>; <gen's loop>: if cnt >= lim: break; A; T = E; I = cnt; cnt += 1; BODY; B
+
+    (sound under fuse_loop's conditions when, in addition, the producer loop's own test / B have no effect a consumer can see:
+    B must be empty and a `while` test must not contain a call)."""
+    zr = zip_range_parts(st.iter)
+    if zr is None or st.orelse or not isinstance(st.target, (ast.Tuple, ast.List)) or len(st.target.elts) != 2:
+        return None
+    n_expr, gcall = zr
+    cnt, lim = prefix + "cnt", prefix + "lim"
+    inner = ast.For(target=st.target.elts[1], iter=gcall,
+                    body=[ast.Assign(targets=[st.target.elts[0]], value=ast.Name(id=cnt, ctx=ast.Load())),
+                          ast.AugAssign(target=ast.Name(id=cnt, ctx=ast.Store()), op=ast.Add(), value=ast.Constant(1))] + list(st.body), orelse=[])
+    ast.copy_location(inner, st)
+    out = fuse_loop(inner, gen, prefix, self_expr=self_expr)
+    if out is None:
+        return None
+    loop = out[-1]
+    body = [b for b in gen.body if not (isinstance(b, ast.Expr) and isinstance(b.value, ast.Constant))]
+    gloop = body[-1]
+    yi = [i for i, b in enumerate(gloop.body) if isinstance(b, ast.Expr) and isinstance(b.value, ast.Yield)][0]
+    if gloop.body[yi + 1:]:
+        return None
+    if isinstance(gloop, ast.While) and _has([gloop.test], (ast.Call,)):
+        return None
+    loop.body.insert(0, ast.If(test=ast.Compare(left=ast.Name(id=cnt, ctx=ast.Load()), ops=[ast.GtE()], comparators=[ast.Name(id=lim, ctx=ast.Load())]), body=[ast.Break()], orelse=[]))
+    head = [ast.Assign(targets=[ast.Name(id=cnt, ctx=ast.Store())], value=ast.Constant(0)), ast.Assign(targets=[ast.Name(id=lim, ctx=ast.Store())], value=n_expr)]
+    out = head + out
+    for n in out:
+        ast.copy_location(n, st)
+        ast.fix_missing_locations(n)
+    return out
+
+
 def fuse_method_loops(fnode, methods, name_of=lambda f: f):
     """A copy of the method `fnode` in which every `for T in self.m(...)` over a generator method m of the same class
     (methods: {name: FunctionDef}) is replaced by the fused loop; (new node, number of loops fused)."""
